@@ -8,6 +8,7 @@ import (
 
 	"github.com/MinterTeam/minter-go-node/coreV2/transaction"
 	"github.com/MinterTeam/minter-go-node/coreV2/types"
+	"github.com/MinterTeam/minter-go-node/crypto"
 
 	"verif/worlds"
 )
@@ -21,6 +22,7 @@ type Original struct {
 	Bytes   []byte
 	Signers []types.Address // the keys that signed (in order)
 	Keys    []*worlds.Key
+	LockPub []byte // checks: uncompressed public key of the passphrase key
 }
 
 var bigMenu = []string{"1000000000000000000", "0", "127", "128", "12345678901234567890123", "1"}
@@ -139,8 +141,8 @@ func Corpus() []*Original {
 	ms := types.Address(sha256Addr("c23-multisig"))
 	add("send-multisig", &worlds.Tx{Type: transaction.TypeSend, Data: send, Multisig: &ms, Signers: []*worlds.Key{ka, kb}, Payload: []byte("m")}, 3)
 	out = append(out,
-		&Original{Name: "check-1", Kind: "check", Bytes: chk1, Signers: []types.Address{ka.Addr}, Keys: []*worlds.Key{ka}},
-		&Original{Name: "check-2", Kind: "check", Bytes: chk2, Signers: []types.Address{kb.Addr}, Keys: []*worlds.Key{kb}})
+		&Original{Name: "check-1", Kind: "check", Bytes: chk1, Signers: []types.Address{ka.Addr}, Keys: []*worlds.Key{ka}, LockPub: passPub("pass")},
+		&Original{Name: "check-2", Kind: "check", Bytes: chk2, Signers: []types.Address{kb.Addr}, Keys: []*worlds.Key{kb}, LockPub: passPub("another password")})
 	return out
 }
 
@@ -148,4 +150,14 @@ func sha256Addr(s string) (a [20]byte) {
 	h := sha256.Sum256([]byte(s))
 	copy(a[:], h[:20])
 	return
+}
+
+// passPub is the public key of the passphrase key of a check (worlds.IssueCheck derives the key as sha256(pass)).
+func passPub(pass string) []byte {
+	pp := sha256.Sum256([]byte(pass))
+	pk, err := crypto.ToECDSA(pp[:])
+	if err != nil {
+		panic(err)
+	}
+	return crypto.FromECDSAPub(&pk.PublicKey)
 }
